@@ -21,7 +21,8 @@ from asphalt.core import (  # noqa: E402
 ACTIONS = ["'cancel'", "None (task ends by itself)", "sync callable", "async callable", "sync callable that raises",
            "async callable that raises when awaited", "callable object (class with __call__)",
            "unhashable callable object (a dataclass with __call__: __eq__ without __hash__)",
-           "falsy callable object (__call__ plus __bool__ returning False)"]
+           "falsy callable object (__call__ plus __bool__ returning False)",
+           "sync callable returning an awaitable OBJECT (not a coroutine) that asks the task to stop when awaited"]
 LATER_ACTIONS = ["'cancel'", "sync callable"]
 
 
@@ -31,7 +32,7 @@ def cfg(tier):
 
 def params(tier):
     D, L = cfg(tier)
-    ps = [P("n", 0, 2), P("nested", 0, 1), P("act", 0, 8), P("via", 0, 2), P("k0", 0, 2), P("k1", 0, 2), P("k2", 0, 2), P("act2", 0, 1)]
+    ps = [P("n", 0, 2), P("nested", 0, 1), P("act", 0, 9), P("via", 0, 2), P("k0", 0, 2), P("k1", 0, 2), P("k2", 0, 2), P("act2", 0, 1)]
     # ONE of {plain, first task ended by itself, block ends with an exception, task needs shielded clean-up}
     ps += [P("mode", 0, 3)]
     for j in range(D):
@@ -50,7 +51,7 @@ def fn(a, tier):
     # 0 resource with teardown callback, 1 service task, 2 resource whose teardown callback starts a service task DURING teardown
     kinds = [pick(a[f"k{i}"], 3) for i in range(n)]
     first_task = next((i for i, k in enumerate(kinds) if k == 1), None)
-    act = pick(a["act"], 9) if first_task is not None else 0
+    act = pick(a["act"], 10) if first_task is not None else 0
     mode = pick(a["mode"], 4)
     m_selfend, m_blockerr, m_cleanup = int(mode == 1), int(mode == 2), int(mode == 3)
     # the first task has already ended by itself (with its context) when the owner is torn down: its teardown action is still due exactly once
@@ -79,6 +80,7 @@ def fn(a, tier):
             ctx = current_context()
             info[("snapshot", i)] = {t: dict(get_resources(t)) for t in RT[:3]}
             info[("parent", i)] = ctx.parent
+            info[("ctxobj", i)] = ctx
 
             async def own_teardown():
                 with anyio.CancelScope(shield=True):
@@ -153,7 +155,17 @@ def fn(a, tier):
             def __bool__(self):
                 return self.requested
 
-        td = ["cancel", None, sync_stop, async_stop, sync_raise, async_raise, Stopper(), Shutdown("owner left"), StopRequest()][action]
+        class _StopOp:
+            def __await__(self):
+                yield from anyio.sleep(0).__await__()
+                stop.set()
+
+        def awaitable_stop():
+            calls[i] += 1
+            log.append(("action_called", i))
+            return _StopOp()
+
+        td = ["cancel", None, sync_stop, async_stop, sync_raise, async_raise, Stopper(), Shutdown("owner left"), StopRequest(), awaitable_stop][action]
         return task, td
 
     async def block():
@@ -207,6 +219,14 @@ def fn(a, tier):
             if selfend:
                 for _ in range(4):
                     await anyio.sleep(0)
+            # a resource factory registered on the owner AFTER the tasks were started is not part of their snapshot
+            ctx.add_resource_factory(lambda: object(), "registered_later", types=[RT[5]])
+            for i_ in range(n):
+                if kinds[i_] == 1 and ("ctxobj", i_) in info and not info[("ctxobj", i_)].closed:
+                    try:
+                        info[("late_factory_visible", i_)] = info[("ctxobj", i_)].get_resource_nowait(RT[5], "registered_later", optional=True) is not None
+                    except RuntimeError:
+                        pass
             log.append(("leaving",))
             if blockerr:
                 raise body_exc
@@ -285,6 +305,8 @@ def fn(a, tier):
                     return FAIL("task-context-snapshot-wrong", f"task {i} sees r{j}: {has}", summary)
         if info[("parent", i)] is not info["ctx"]:
             return FAIL("task-context-parent-wrong", "", summary)
+        if info.get(("late_factory_visible", i)):
+            return FAIL("task-context-sees-a-factory-registered-after-the-task-was-started", f"task {i}", summary)
     res_order = [e[1] for e in log if e[0] == "res_td"]
     if res_order != sorted(res_order, reverse=True) or len(res_order) != kinds.count(0) + kinds.count(2):
         return FAIL("resource-teardown-order", log, summary)
